@@ -47,7 +47,31 @@ func GenGenericModule(r *core.Rng, size int) *Stmt {
 		return s
 	}
 	for budget > 0 {
-		if r.Chance(1, 5) {
+		if r.Chance(1, 8) {
+			// a choice whose substatements come in any order: shorthand cases (leaf, container, list,
+			// leaf-list, anyxml), explicit cases, description / default / mandatory, extension statements
+			budget--
+			n := budget
+			ch := S("choice", fmt.Sprintf("ch%d", n))
+			parts := []*Stmt{
+				S("leaf", fmt.Sprintf("sl%d", n), S("type", "string")),
+				S("case", fmt.Sprintf("ec%d", n), S("leaf", fmt.Sprintf("el%d", n), S("type", "int8"))),
+				S("container", fmt.Sprintf("sc%d", n), gen(3)),
+				S("description", core.Pick(r, argPool)),
+				S("leaf-list", fmt.Sprintf("sll%d", n), S("type", "string")),
+				S("case", fmt.Sprintf("ed%d", n), S("container", fmt.Sprintf("edc%d", n))),
+				gen(3),
+				S("list", fmt.Sprintf("sli%d", n), S("key", "k"), S("leaf", "k", S("type", "string"))),
+				S("anyxml", fmt.Sprintf("sa%d", n)),
+				S("status", "current"),
+			}
+			for _, pi := range r.Perm(len(parts)) {
+				if r.Chance(3, 4) {
+					ch.Add(parts[pi])
+				}
+			}
+			m.Add(S("container", fmt.Sprintf("cc%d", n), ch))
+		} else if r.Chance(1, 5) {
 			budget--
 			// a few core statements with simple bodies
 			m.Add(S("container", fmt.Sprintf("c%d", budget), S("description", core.Pick(r, argPool)), gen(2)))
